@@ -527,7 +527,7 @@ func parent(prop string, scs []Scenario) {
 			r.Sample(map[string]any{"scenario": sc.Name, "params": sc.Params, "executions": merged.Executions, "bound_completed": completed,
 				"outcomes": merged.Outcomes, "max_choice_points": merged.MaxPoints, "threads": merged.MaxThreads})
 		}
-		if sc.NeedsConflict && merged.Conflicting == 0 {
+		if sc.NeedsConflict && merged.Conflicting == 0 && merged.Judged > 0 && merged.Capped == "" {
 			evid.EngineError(prop, "vacuous scenario %s: no execution had two threads touching the same object inside the window", sc.Name)
 		}
 		for _, f := range merged.Failures {
